@@ -13,7 +13,7 @@ def main() -> int:
         tlc.stage(work)
         bad = 0
         for path in sorted(glob.glob(os.path.join(work, "*.tla"))):
-            proc = subprocess.run(["java", "-cp", tlc._classpath(), "tla2sany.SANY", os.path.basename(path)],
+            proc = subprocess.run(["java", f"-Djava.io.tmpdir={work}", "-cp", tlc._classpath(), "tla2sany.SANY", os.path.basename(path)],
                                   cwd=work, capture_output=True, text=True)
             ok = proc.returncode == 0 and "Semantic errors" not in proc.stdout and "Parse Error" not in proc.stdout \
                 and "Fatal errors" not in proc.stdout
